@@ -251,9 +251,10 @@ func NewCalculator(
 
 	// a window that covers none of the distribution, or weights without a usable mean, would turn every
 	// rate into NaN, i.e. math.MinInt64 requests per tick
-	if math.IsNaN(multiplier) || math.IsInf(multiplier, 0) || averageWeight == 0 || math.IsNaN(averageWeight) {
+	if math.IsNaN(multiplier) || math.IsInf(multiplier, 0) || averageWeight == 0 || math.IsNaN(averageWeight) || math.IsInf(averageWeight, 0) {
 		return nil, errors.New("gaussian: no rate can be derived: the repeat window covers none of the " +
-			"distribution (move the peak inside the window or increase the standard deviation) or the weights sum to zero")
+			"distribution (move the peak inside the window or increase the standard deviation) or the weights sum to zero " +
+			"or are not finite")
 	}
 
 	return &Calculator{
